@@ -153,6 +153,36 @@ pub fn check_case(c: &SeqCase, obs: &mut Obs) -> Verdict {
             Err(p) => return Verdict::Fail(format!("{}: the deadline-taking entry points without a deadline: {}", alg_name(c.alg), p)),
         }
     }
+    // caller-defined lookups whose index space starts at a huge base (around 2^32, 2^63): all reported
+    // indices are the caller's absolute positions
+    if c.old.len() + c.new.len() <= 64 {
+        let sel = c.old.len() * 3 + c.new.len();
+        let (bo, bn) = [(1usize << 32, (1usize << 32) - 3), ((1usize << 32) - 2, 7usize), (usize::MAX / 2 - 40, (1usize << 33) + 1), (5, 1usize << 40)][sel % 4];
+        let (lo, ln) = (Based { data: c.old_slice(), base: bo }, Based { data: c.new_slice(), base: bn });
+        let (n, m) = (c.old_slice().len(), c.new_slice().len());
+        match guard(|| {
+            let mut r = Recorder::new();
+            algorithms::diff(alg_of(c.alg), &mut r, &lo, bo..bo + n, &ln, bn..bn + m).unwrap();
+            r.events
+        }) {
+            Ok(e) => {
+                let want: Vec<Ev> = ev
+                    .iter()
+                    .map(|x| match *x {
+                        Ev::Equal(o, nn, l) => Ev::Equal(o - c.or.0 + bo, nn - c.nr.0 + bn, l),
+                        Ev::Delete(o, l, nn) => Ev::Delete(o - c.or.0 + bo, l, nn - c.nr.0 + bn),
+                        Ev::Insert(o, nn, l) => Ev::Insert(o - c.or.0 + bo, nn - c.nr.0 + bn, l),
+                        Ev::Replace(o, ol, nn, nl) => Ev::Replace(o - c.or.0 + bo, ol, nn - c.nr.0 + bn, nl),
+                        Ev::Finish => Ev::Finish,
+                    })
+                    .collect();
+                if e != want {
+                    return Verdict::Fail(format!("{}: the ranges as windows of caller-defined lookups based at {} / {} give {:?}, expected the slice diff shifted to those bases {:?}", alg_name(c.alg), bo, bn, e, want));
+                }
+            }
+            Err(p) => return Verdict::Fail(format!("{} over lookups based at {} / {}: {}", alg_name(c.alg), bo, bn, p)),
+        }
+    }
     // other item types: owned strings (non-Copy), and different types on the two sides
     if c.old.len() + c.new.len() <= 64 {
         let os: Vec<String> = c.old.iter().map(|x| format!("item {}", x)).collect();
